@@ -31,6 +31,7 @@ type Attempt struct {
 	DelayMs int     `json:"delayms,omitempty"` // virtual delay before the transport answers
 	ReadMs  int     `json:"readms,omitempty"`  // virtual delay before each body read
 	HangMs  int     `json:"hangms,omitempty"`  // cancel: how long the last read blocks before the harness cancels
+	Filler  int     `json:"filler,omitempty"`  // number of 32-byte id-less filler events appended to Stream (so that one connection carries more than the scanner's buffer)
 	ErrKind string  `json:"errkind,omitempty"` // neterr / End=err: "" plain | deadline | canceled: an error that LOOKS like a context error but does not come from the request's context (e.g. a dial or client timeout)
 }
 
@@ -79,16 +80,16 @@ type retryObs struct {
 }
 
 type Trace struct {
-	attempts     []attemptObs
-	retries      []retryObs
-	events       []sse.Event
-	eventAttempt []int // index of the attempt during which each event was dispatched
-	final        error
-	returnedAt   time.Duration
-	cancelledAt  time.Duration // -1: never by the harness
-	getBodyCalls int
-	ctxErrAtEnd  error
-	panicked     any
+	attempts           []attemptObs
+	retries            []retryObs
+	events             []sse.Event
+	eventAttempt       []int // index of the attempt during which each event was dispatched
+	final              error
+	returnedAt         time.Duration
+	cancelledAt        time.Duration // -1: never by the harness
+	getBodyCalls       int
+	ctxErrAtEnd        error
+	panicked           any
 	onRetryAfterCancel bool
 }
 
@@ -104,6 +105,19 @@ var (
 	errBoomCanceled = fmt.Errorf("harness: body read aborted: %w", context.Canceled)
 	errBoomEOF      = fmt.Errorf("harness: connection reset by peer: %w", io.EOF)
 )
+
+// body is the complete response body of a stream attempt.
+func (a Attempt) body() string {
+	if a.Filler == 0 {
+		return string(a.Stream)
+	}
+	var b strings.Builder
+	b.WriteString(string(a.Stream))
+	for i := 0; i < a.Filler; i++ {
+		fmt.Fprintf(&b, "data: filler %06d abcdefghijk\n\n", i) // 32 bytes, no id
+	}
+	return b.String()
+}
 
 func (a Attempt) netErr() error {
 	switch a.ErrKind {
@@ -130,20 +144,24 @@ func (a Attempt) readErr() error {
 const requestBody = "request-body-0123456789"
 
 type scriptedBody struct {
-	tr      *Trace
-	a       Attempt
-	ctx     context.Context
-	cancel  context.CancelFunc
-	off, i  int
-	t0      time.Time
-	hung    bool
+	tr     *Trace
+	a      Attempt
+	ctx    context.Context
+	cancel context.CancelFunc
+	off, i int
+	data   string
+	t0     time.Time
+	hung   bool
 }
 
 func (b *scriptedBody) Read(p []byte) (int, error) {
 	if b.a.ReadMs > 0 {
 		time.Sleep(time.Duration(b.a.ReadMs) * time.Millisecond)
 	}
-	data := string(b.a.Stream)
+	if b.data == "" {
+		b.data = b.a.body()
+	}
+	data := b.data
 	if b.off < len(data) {
 		n := len(data) - b.off
 		if len(b.a.Chunks) > 0 {
